@@ -292,7 +292,7 @@ fn called_once_on(s: &LeanString) -> bool {
     unsafe { D_CALLS == 1 && D_SELF == &s.0 as *const Repr }
 }
 
-// @harness name=deleg_try_forms props=C01,C05,C06,C07 class=U tier=quick fn=LeanString::try_*
+// @harness name=deleg_try_forms props=C01,C05,C06,C07,C09,C11,C12,C13 class=U tier=quick fn=LeanString::try_*
 #[kani::proof]
 #[kani::stub(Repr::reserve, r_reserve)]
 #[kani::stub(Repr::shrink_to, r_shrink_to)]
@@ -314,7 +314,7 @@ fn deleg_try_forms() {
     match which {
         0 => {
             let r = s.try_reserve(n);
-            obl!(called_once_on(&s) && unsafe { D_A0 } == n && r.is_err() == unsafe { D_ERR }, "deleg.try_reserve", "C01,C05,C06");
+            obl!(called_once_on(&s) && unsafe { D_A0 } == n && r.is_err() == unsafe { D_ERR }, "deleg.try_reserve", "C01,C05,C06,C11,C12");
         }
         1 => {
             let r = s.try_shrink_to(n);
@@ -333,7 +333,7 @@ fn deleg_try_forms() {
             obl!(
                 called_once_on(&s) && unsafe { D_SP } == arg.as_ptr() && unsafe { D_SN } == k && r.is_err() == unsafe { D_ERR },
                 "deleg.try_push_str",
-                "C01,C05,C06"
+                "C01,C05,C06,C09,C11,C12"
             );
         }
         5 => {
@@ -341,7 +341,7 @@ fn deleg_try_forms() {
             obl!(
                 called_once_on(&s) && unsafe { D_A0 } == n && unsafe { D_SP } == arg.as_ptr() && unsafe { D_SN } == k && r.is_err() == unsafe { D_ERR },
                 "deleg.try_insert_str",
-                "C01,C05,C06,C07"
+                "C01,C05,C06,C07,C09,C11,C12"
             );
         }
         6 => {
@@ -372,7 +372,7 @@ fn deleg_try_forms() {
                 }
                 i += 1;
             }
-            obl!(called_once_on(&s) && same && r.is_err() == unsafe { D_ERR }, "deleg.try_push_is_push_str_of_utf8_encoding", "C01,C05");
+            obl!(called_once_on(&s) && same && r.is_err() == unsafe { D_ERR }, "deleg.try_push_is_push_str_of_utf8_encoding", "C01,C05,C09,C11,C12");
         }
         9 => {
             let r = s.try_insert(n, ch);
@@ -385,7 +385,7 @@ fn deleg_try_forms() {
                 }
                 i += 1;
             }
-            obl!(called_once_on(&s) && same && r.is_err() == unsafe { D_ERR }, "deleg.try_insert_is_insert_str_of_utf8_encoding", "C01,C05,C07");
+            obl!(called_once_on(&s) && same && r.is_err() == unsafe { D_ERR }, "deleg.try_insert_is_insert_str_of_utf8_encoding", "C01,C05,C07,C09,C11,C12");
         }
         _ => {
             let r = LeanString::try_with_capacity(n);
@@ -399,7 +399,7 @@ fn deleg_try_forms() {
 }
 
 // plain forms: same call, and a panic exactly when the callee reports Err
-// @harness name=deleg_plain_forms props=C01,C05,C06,C07 class=U tier=quick fn=LeanString::plain expect_fail="do_panic_with_msg"
+// @harness name=deleg_plain_forms props=C01,C05,C06,C07,C09,C11,C12,C13 class=U tier=quick fn=LeanString::plain expect_fail="do_panic_with_msg"
 #[kani::proof]
 #[kani::stub(Repr::reserve, r_reserve)]
 #[kani::stub(Repr::shrink_to, r_shrink_to)]
@@ -468,7 +468,7 @@ fn deleg_plain_forms() {
     }
     // reached only when the plain form returned: the callee must have reported Ok
     obl!(unsafe { !D_ERR }, "deleg.plain_form_panics_iff_callee_err", "C05,C06");
-    obl!(called_once_on(&s), "deleg.plain_form_calls_callee_once", "C01");
+    obl!(called_once_on(&s), "deleg.plain_form_calls_callee_once", "C01,C09,C11,C12,C13");
     core::mem::forget(s);
 }
 
